@@ -3,6 +3,7 @@ import Goirc.Spec.Caps
 import Goirc.Spec.NickScript
 import Goirc.Spec.Register
 import Goirc.Spec.Life
+import Goirc.Spec.Send
 /-! Driver requests that evaluate the C17–C20 Specs on implementation output. -/
 namespace Driver
 open Go Go.Client
@@ -51,6 +52,16 @@ def lifeEv (t : String) : Option Spec.Life.Ev :=
 
 def specHandle (ws : List String) : Option String :=
   match ws with
+  | ["spec09", final, issued, wire] => do
+    let pairs (t : String) : Option (List (Nat × Nat)) :=
+      if t == "_" then some [] else (t.splitOn ",").mapM fun p =>
+        match p.splitOn ":" with
+        | [a, b] => do pure ((← a.toNat?), (← b.toNat?))
+        | _ => none
+    let iss ← pairs issued
+    let w ← pairs wire
+    let items : List Go.Send.Item := w.map fun (a, b) => ⟨a, b⟩
+    pure (okFail (if final == "1" then Spec.Send.okComplete iss items else Spec.Send.okPrefix (iss.map (·.1)) items))
   | ["spec06", final, evs] => do
     let l ← (if evs == "_" then some [] else (evs.splitOn ",").mapM lifeEv)
     pure (okFail (if final == "1" then Spec.Life.okFinal l else Spec.Life.okPrefix l))
